@@ -1,6 +1,6 @@
 (* extraction of the executable (exact rational) instance of the C06 model; Z / positive / Q stay the extracted inductives *)
 From Coq Require Import List ZArith QArith Extraction ExtrOcamlBasic.
-From LN Require Import C06_Defs C06_Convex2_Defs.
+From LN Require Import C06_Defs C06_Convex2_Defs C06_Rest_Defs.
 Extraction Language OCaml.
 Extraction "extracted/c06_model.ml" Qops Qplus Qminus Qmult Qopp Qle_bool Qred
   k_mse_v k_mse_g k_mae_v k_mae_g k_hinge_v k_hinge_g k_sqhinge_v k_sqhinge_g k_pinball_v k_pinball_g
@@ -12,4 +12,9 @@ Extraction "extracted/c06_model.ml" Qops Qplus Qminus Qmult Qopp Qle_bool Qred
   size_rosenbrock size_powell size_enet size_linear size_surrogate_fit
   (* extension (C06_Convex2_Defs) *)
   zeros mv mtv identity madd gram gram1 quad_v quad_g cq_v cq_g wreg_v wreg_g pospart maxval maxabs_v maxabs_g hilbert maxhilb_v maxhilb_g
-  kinks_v kinks_g mq_piece mq_grad maxquad_v maxquad_g maxquad_test inv_nat sample_out erm_v erm_g lin_v lin_g enet_v enet_g design lin_cw.
+  kinks_v kinks_g mq_piece mq_grad maxquad_v maxquad_g maxquad_test inv_nat sample_out erm_v erm_g lin_v lin_g enet_v enet_g design lin_cw
+  (* second extension (C06_Rest_Defs) *)
+  along rem_poly schumer_r2 schumer_r3 schumer_r4 styblinski_r2 qing_r2 axis_r2 chung_r2 chung_r3 chung_r4 sargan_r2 sargan_r3 sargan_r4
+  zakharov_r2 zakharov_r3 zakharov_r4 rosenbrock_r2 rosenbrock_r3 rosenbrock_r4 dixon_r2 dixon_r3 dixon_r4
+  powell_v powell_g powell_r2 powell_r3 powell_r4 p2_row sur_v sur_g sur_q fit_data fit_v fit_g grads_v grads_g mqf_matrix
+  functional_convex functional_smooth functional_strong_convexity grads_convex surrogate_fit_convex.
